@@ -259,7 +259,7 @@ func c07() []*Ob {
 		{Prop: "C07", ID: "C07.2", Engine: "LOCKORDER", Floor: 3,
 			Desc:  "the lock-class order graph (class A held while class B is acquired, through static callees up to depth 3) is acyclic; same-class nesting is allowed only at Active.AppendIDs (MIDs.mu then RIDs.mu, one fixed order)",
 			Check: func(c *Ctx) { lockOrderCheck(c, c07Funcs(c)) }},
-		{Prop: "C07", ID: "C07.3", Engine: "ORDER", Floor: 5,
+		{Prop: "C07", ID: "C07.3", Engine: "ORDER", Floor: 2,
 			Desc: "publication order of an index update in ActiveIndexer.appendWorker: DocsPositions.SetMultiple < Active.AppendIDs < TokenList.Append < addLIDsToTokens (postings queued) < Active.UpdateStats < task.Wg.Done",
 			Check: func(c *Ctx) {
 				fn := c.Fn("(*frac.ActiveIndexer).appendWorker")
@@ -281,9 +281,13 @@ func c07() []*Ob {
 					MustPrecede(c, fn, chain[i].m, chain[i].name, chain[i+1].m, chain[i+1].name)
 				}
 			}},
-		{Prop: "C07", ID: "C07.4", Engine: "ORDER+PROV", Floor: 4,
-			Desc: "readers: activeDataProvider.Search clamps params.From/To with the fraction's published From/To before the index search; getIDsIndex materialises the _all_ postings before it takes the mids/rids snapshots and sizes the inverser from the mids snapshot; inverseLIDs keeps only LIDs the inverser knows",
+		{Prop: "C07", ID: "C07.4", Engine: "ORDER+PROV", Floor: 3,
+			Desc: "readers: activeDataProvider.Search clamps params.From/To with the fraction's published From/To before the index search; getIDsIndex materialises the _all_ postings before it takes the mids/rids snapshots and sizes the inverser from the mids snapshot; TokenLIDs.GetLIDs takes the queued LIDs before the mids/rids snapshots it sorts and merges them with (the indexer appends ids first and queues LIDs afterwards, so only this order guarantees every queued LID is inside the snapshot); inverseLIDs keeps only LIDs the inverser knows",
 			Check: func(c *Ctx) {
+				// posting lists: the queued LIDs are taken before the ids snapshots they are sorted with
+				if gl := c.Fn("(*frac.TokenLIDs).GetLIDs"); gl != nil {
+					PrecedeI(c, gl, CallSel(Callee("(*frac.TokenLIDs).getQueuedLIDs")), "queued LIDs taken (getQueuedLIDs)", CallSel(Callee("(*frac.UInt64s).GetVals")), "mids/rids snapshot (GetVals)")
+				}
 				if fn := c.Fn("(*frac.activeDataProvider).getIDsIndex"); fn != nil {
 					getL := Callee("(*frac.TokenLIDs).GetLIDs")
 					getV := Callee("(*frac.UInt64s).GetVals")
@@ -454,7 +458,7 @@ func c07() []*Ob {
 					}
 				}
 			}},
-		{Prop: "C07", ID: "C07.6", Engine: "LOCK+ACK", Floor: 3,
+		{Prop: "C07", ID: "C07.6", Engine: "LOCK+ACK", Floor: 1,
 			Desc: "hand-over: proxyFrac.Seal stores f.sealed and clears f.active under one useMu.Lock hold and releases the active fraction only afterwards; FracManager.Append returns nil only after a successful proxyFrac.Append and otherwise retries or returns ctx.Err()",
 			Check: func(c *Ctx) {
 				if fn := c.Fn("(*fracmanager.proxyFrac).Seal"); fn != nil {
